@@ -582,8 +582,8 @@ func verifSinkOracle(sc *verifScn, run *verifSinkRun) {
 		// the stream ends inside the length prefix or the header
 		verifAssert("C10-short-header-no-write-error", run.writeErr == nil)
 		verifAssert("C10-short-header-nothing-installed", !installed)
+		verifReach("stream-ends-in-header")
 		if run.closeErr == nil {
-			verifReach("stream-ends-in-header")
 			verifFinding("C10-close-ok-on-stream-cut-in-header")
 		}
 		return
@@ -593,8 +593,10 @@ func verifSinkOracle(sc *verifScn, run *verifSinkRun) {
 		// a header that describes no database: the Write that completes it must fail
 		// (IncrementalFile headers are legal only without any following data)
 		if sc.kind == verifKindIncFile && sc.L == HeaderSizeLen+sc.H {
-			if run.writeErr != nil && verifPieceLen(sc, run.failedAt) == 0 && sc.cuts[run.failedAt] == sc.L {
+			if sc.emptyWriteAt(sc.L) {
 				verifReach("empty-write-after-end")
+			}
+			if run.writeErr != nil && verifPieceLen(sc, run.failedAt) == 0 && sc.cuts[run.failedAt] == sc.L {
 				verifFinding("C10-empty-write-after-last-byte-refused")
 			}
 			verifAssert("C10-incfile-header-alone-accepted", run.writeErr == nil)
@@ -629,11 +631,13 @@ func verifSinkOracle(sc *verifScn, run *verifSinkRun) {
 		verifAssert("C10-long-stream-says-unexpected-data", errors.Is(run.writeErr, ErrUnexpectedData))
 		verifReach("long-stream")
 	default:
+		if sc.emptyWriteAt(sc.E) {
+			verifReach("empty-write-after-end")
+		}
 		if run.writeErr != nil {
 			// exact stream, but a Write failed
 			verifAssert("C10-refused-nothing-installed", !installed)
 			if verifPieceLen(sc, run.failedAt) == 0 && sc.cuts[run.failedAt] == sc.E && errors.Is(run.writeErr, ErrUnexpectedData) {
-				verifReach("empty-write-after-end")
 				verifFinding("C10-empty-write-after-last-byte-refused")
 			}
 			verifAssert("C10-exact-stream-writes-accepted", false)
@@ -657,6 +661,16 @@ func verifSinkOracle(sc *verifScn, run *verifSinkRun) {
 			}
 		}
 	}
+}
+
+// emptyWriteAt: the split contains a zero-length piece at offset at.
+func (sc *verifScn) emptyWriteAt(at int) bool {
+	for i := range sc.cuts {
+		if sc.cuts[i] == at && verifPieceLen(sc, i) == 0 {
+			return true
+		}
+	}
+	return false
 }
 
 func verifPieceLen(sc *verifScn, i int) int {
@@ -803,9 +817,11 @@ func verifCheckRestore(opt verifOpt) {
 	// the stream reaches Restore through the store's LockingStreamer (no idle timeout)
 	ls := NewLockingStreamer(io.NopCloser(&verifPieceReader{sc: sc}), nil, 0)
 	n, err, panicked := verifCatchRestore(ls, dst)
+	if sc.kind == verifKindNoDB && sc.hdrComplete() {
+		verifReach("full-header-without-db-header")
+	}
 	if panicked {
 		verifAssert("C10-restore-panics-only-without-db-header", sc.kind == verifKindNoDB && sc.hdrComplete())
-		verifReach("restore-panic")
 		verifFinding("C10-restore-panics-on-full-header-without-db-header")
 	}
 	accepted, replayed := verifRestoreVerdict(sc, err)
@@ -832,6 +848,14 @@ func verifCheckRestore(opt verifOpt) {
 		verifCleanup(dir)
 		return
 	}
+	if sc.L > sc.E {
+		verifReach("restore-trailing-bytes")
+		if !accepted {
+			verifAssert("C10-restore-long-stream-never-replayed", !replayed)
+			verifCleanup(dir)
+			return
+		}
+	}
 	verifAssert("C10-restore-good-stream-accepted", accepted)
 	verifAssert("C10-restore-read-count-exact", n == int64(sc.E))
 	verifAssert("C10-restore-replays-iff-wals", replayed == (len(sc.slices) > 1))
@@ -848,7 +872,6 @@ func verifCheckRestore(opt verifOpt) {
 		verifAssert("C10-restored-db-is-stream-slice", verifFileIs(dst, sc.slices[0]))
 	}
 	if sc.L > sc.E {
-		verifReach("restore-trailing-bytes")
 		verifFinding("C10-restore-accepts-trailing-bytes")
 	}
 	verifReach("restored")
